@@ -400,12 +400,14 @@ def run_reassembly(params, known):
         v['case'] = case
         violations.append(v)
     nseg = params['segments']
-    bundle = bytes(range(0x41, 0x41 + 2 * nseg))
+    # every second octet is zero: each two-octet segment (and the bundle) ends in 0x00, which must
+    # not be mistaken for link padding
+    bundle = bytes(b for k in range(nseg) for b in (0x41 + k, 0))
     segs = []
     for k in range(nseg):
         mtype = M_END if k == nseg - 1 else M_SEG
         segs.append(('a%d' % k, enc_transfer(mtype, 1, k, bundle[2 * k:2 * k + 2], hints=((0, struct.pack('!I', len(bundle))),))))
-    other = bytes(range(0x61, 0x65))
+    other = bytes([0x61, 0, 0x63, 0])
     if params['interleave'] == 'peer2':
         # the same transfer number as the first transfer, from another peer
         osegs = [('p2:b0', enc_transfer(M_SEG, 1, 0, other[0:2]), MAC_P2), ('p2:b1', enc_transfer(M_END, 1, 1, other[2:4]), MAC_P2)]
@@ -456,6 +458,25 @@ def run_reassembly(params, known):
                 q = world.call('recv_bundle_get_queue')
                 if q[0] != 'ok' or list(q[1]):
                     viol('receive-queue-differs', dict(), repr(q), case)
+                # (the per-segment timers of a finished transfer raise KeyError in their callback, which
+                # GLib logs and drops: no effect on the queue, not judged by this property)
+                world.escaped = []
+                if not params['interleave'] and order == orders[0]:
+                    # the sender restarts (or its 32-bit counter wraps): the same transfer number
+                    # again, with other data, after the first one is complete and its timers are over
+                    again = bytes(b for k in range(nseg) for b in (0x71 + k, 0x30))
+                    for k in range(nseg):
+                        mtype = M_END if k == nseg - 1 else M_SEG
+                        world.activate(None)
+                        world.net.inject(IFNAME, frame_for(enc_transfer(mtype, 1, k, again[2 * k:2 * k + 2]), src=MAC_S))
+                        world.run_all()
+                    sigs = [s for s in world.signals if s[0] == 'recv_bundle_finished']
+                    res = world.call('recv_bundle_pop_data', sigs[-1][1]) if len(sigs) > before else ('none',)
+                    if len(sigs) != before + 1 or res[0] != 'ok' or bytes(res[1]) != again:
+                        viol('transfer-number-cannot-be-reused', dict(), 'second transfer with number 1: signals %r, pop %r' % (sigs[before:], res), case)
+                    if world.escaped:
+                        esc = world.escaped[-1]
+                        viol('exception-escaped-callback', dict(exc=esc[0]), '%s: %s' % (esc[0], esc[2]), case)
                 keys.add(','.join(case['order']))
                 if len(samples) < 1:
                     samples.append(case)
